@@ -277,7 +277,10 @@ def forall_int(lo, hi, body, name="j", pats=None):
     if CTX.scope is None:
         j = z3.Int(CTX.fresh(name))
         if pats is not None:
-            return z3.ForAll([j], z3.Implies(z3.And(lo <= j, j < hi), body(j)), patterns=pats(j))
+            try:
+                return z3.ForAll([j], z3.Implies(z3.And(lo <= j, j < hi), body(j)), patterns=pats(j))
+            except z3.Z3Exception:
+                pass        # not a legal trigger (contains logical connectives): let the solver choose
         return z3.ForAll([j], z3.Implies(z3.And(lo <= j, j < hi), body(j)))
     CTX.scope_constraints.append(z3.Implies(lo < hi, z3.And(lo >= 0, hi <= CTX.scope + 1)))
     return z3.And([z3.Implies(z3.And(lo <= c, c < hi), body(c)) for c in _int_domain()])
